@@ -63,6 +63,10 @@ def resolve (height : Nat) (d : Disk) (hash : HTerm) (path : Path) : Option Node
 structure Env where
   height : Nat
   disk : Disk
+  /-- which path the value-node case of `delete` reports to the tracer: `false` = the remaining key
+  (`t.nodeTracer.onDelete(key)`, the unchanged tree), `true` = the absolute path of the leaf
+  (`onDelete(prefix)`, the repaired tracer). Irrelevant for every root. -/
+  leafDeleteAbs : Bool := false
 
 abbrev M := StateT Tracer Option
 
@@ -158,7 +162,7 @@ def del (e : Env) : Nat → Node → Path → Path → M (Node × Bool)
     | .value _ => do
       -- NB: the Go code passes the REMAINING key here (`t.nodeTracer.onDelete(key)`), not the
       -- absolute path of the leaf
-      trace (·.onDelete key)
+      trace (·.onDelete (if e.leafDeleteAbs then pre else key))
       pure (.nil, true)
     | .hash h =>
       match resolve e.height e.disk h pre with
@@ -215,15 +219,16 @@ structure T where
   root : Node
   disk : Disk
   tracer : Tracer
+  leafDeleteAbs : Bool := false
 deriving Repr
 
 /-- `trie2.New(id, height, hashFn, db)` with a non-zero state commitment: the root is resolved from
 the database (absent -> empty trie). -/
-def openTrie (height : Nat) (kind : HashKind) (disk : Disk) : T :=
-  ⟨height, kind, (resolve height disk (.felt 0) []).getD .nil, disk, ⟨[], []⟩⟩
+def openTrie (height : Nat) (kind : HashKind) (disk : Disk) (leafDeleteAbs : Bool := false) : T :=
+  ⟨height, kind, (resolve height disk (.felt 0) []).getD .nil, disk, ⟨[], []⟩, leafDeleteAbs⟩
 
 def update (t : T) (key : Path) (v : HTerm) : Option T :=
-  let e : Env := ⟨t.height, t.disk⟩
+  let e : Env := ⟨t.height, t.disk, t.leafDeleteAbs⟩
   let fuel := 2 * t.height + 4
   let r := if v == .felt 0 then del e fuel t.root [] key t.tracer
            else ins e fuel t.root [] key (.value v) t.tracer
@@ -255,7 +260,7 @@ def applySet (d : Disk) (ns : NodeSet) : Disk :=
 def commitReopen (t : T) : HTerm × Option NodeSet × T :=
   let (h, ns) := commit t
   let disk := match ns with | some s => applySet t.disk s | none => t.disk
-  (h, ns, openTrie t.height t.kind disk)
+  (h, ns, openTrie t.height t.kind disk t.leafDeleteAbs)
 
 /-- `Trie.Get(key)` through unresolved nodes. -/
 def get (e : Env) : Nat → Node → Path → Path → Option HTerm
